@@ -476,6 +476,8 @@ impl<TActor: ThreadLocalActor> ThreadLocalActorRuntime<TActor> {
                     Self::handle_signal(myself.clone(), signal),
                 )),
                 actor_cell::ActorPortMessage::Stop(stop_message) => {
+                    #[cfg(ractor_verif)]
+                    crate::verif::emit("port.stop", myself.get_id().pid(), 0);
                     let exit_reason = match stop_message {
                         StopMessage::Stop => {
                             tracing::trace!("Actor {:?} stopped with no reason", myself.get_id());
@@ -492,6 +494,8 @@ impl<TActor: ThreadLocalActor> ThreadLocalActorRuntime<TActor> {
                     Ok(ActorLoopResult::stop(exit_reason))
                 }
                 actor_cell::ActorPortMessage::Supervision(supervision) => {
+                    #[cfg(ractor_verif)]
+                    crate::verif::emit("port.sup", myself.get_id().pid(), 0);
                     let future = Self::handle_supervision_message(
                         myself.clone(),
                         state,
@@ -508,6 +512,8 @@ impl<TActor: ThreadLocalActor> ThreadLocalActorRuntime<TActor> {
                     }
                 }
                 actor_cell::ActorPortMessage::Message(MuxedMessage::Message(msg)) => {
+                    #[cfg(ractor_verif)]
+                    crate::verif::emit("port.msg", myself.get_id().pid(), 0);
                     let future = Self::handle_message(myself.clone(), state, handler, msg);
                     match ports.run_with_signal(future).await {
                         Ok(Ok(())) => Ok(ActorLoopResult::ok()),
@@ -519,6 +525,8 @@ impl<TActor: ThreadLocalActor> ThreadLocalActorRuntime<TActor> {
                     }
                 }
                 actor_cell::ActorPortMessage::Message(MuxedMessage::Drain) => {
+                    #[cfg(ractor_verif)]
+                    crate::verif::emit("port.drain", myself.get_id().pid(), 0);
                     // Drain is a stub marker that the actor should now stop, we've processed
                     // all the messages and we want the actor to die now
                     Ok(ActorLoopResult::stop(Some("Drained".to_string())))
@@ -608,6 +616,8 @@ impl<TActor: ThreadLocalActor> ThreadLocalActorRuntime<TActor> {
     }
 
     fn handle_signal(myself: ActorRef<TActor::Msg>, signal: Signal) -> Option<String> {
+        #[cfg(ractor_verif)]
+        crate::verif::emit("sig.handled", myself.get_id().pid(), 0);
         match &signal {
             Signal::Kill => {
                 myself.terminate();
